@@ -273,6 +273,13 @@ func (x *Exec) contractCall(fr *Frame, st *State, site ssa.Instruction, callee *
 			label = fmt.Sprintf("%d", k+1)
 		}
 		name := fmt.Sprintf("pre@%s#%s@%d", short, label, x.count("pre@"+short+"#"+label))
+		if x.contract != nil && x.contract.AssumePre && x.inSpec == 0 {
+			// "assumepre": this function is checked for one functional clause only; what
+			// its callees require (index ranges) is assumed here like its own panic sites
+			x.assumed["call-site preconditions of callees are assumed, not proved, in "+ShortKey(x.topKey)+" (assumepre)"] = true
+			x.assumeUnder(st.Guard, t)
+			continue
+		}
 		x.oblige("pre", name, st.Guard, t, "precondition of "+short+": "+rq.Text, site.Pos(), false)
 	}
 	if ct.Pure {
